@@ -42,7 +42,10 @@ def tokOfText (w : String) : Tok :=
   else if w == "," then .comma
   else match TK.all.find? (·.spelling == w) with
     | some k => .op k
-    | none => if w.all Char.isDigit then .int w.toList else .ident w
+    | none =>
+      -- `#name` stands for a rigid primary expression (any literal, tuple, array, struct literal, if, match …):
+      -- for the Pratt loop and for lowering it behaves like an integer literal
+      if w.all Char.isDigit || w.startsWith "#" then .int w.toList else .ident w
 
 def showParse (r : Option Ast) : String :=
   match r with
